@@ -1,6 +1,6 @@
 (* Theory/AliasSound.v — a closed node set over-approximates, for every control flow, which variables can reach
    marked memory; and memory that is not reachable is not observable. *)
-From Coq Require Import List Strings.String Bool Arith Lia.
+From Coq Require Import List NArith Bool Arith Lia.
 Import ListNotations.
 From FP.Model Require Import Alias.
 From FP.Lib Require Import Bytes.
@@ -8,8 +8,8 @@ From FP.Lib Require Import Bytes.
 Lemma mem_true_iff x t : mem x t = true <-> In x t.
 Proof.
   unfold mem. rewrite existsb_exists. split.
-  - intros [y [Hin He]]. apply String.eqb_eq in He. subst. exact Hin.
-  - intro H. exists x. split; [exact H|apply String.eqb_refl].
+  - intros [y [Hin He]]. apply N.eqb_eq in He. subst. exact Hin.
+  - intro H. exists x. split; [exact H|apply N.eqb_refl].
 Qed.
 
 Section Sound.
@@ -17,7 +17,7 @@ Section Sound.
   Variable bufhot : bool.
   Hypothesis Hbuf : bad 0 -> bufhot = true.
   Variable g : list edge.
-  Variable t : list string.
+  Variable t : list node.
   Hypothesis Hclosed : closedb bufhot g t = true.
 
   Definition clean (st : store) : Prop := forall x, mem x t = false -> forall r, In r (st x) -> ~ bad r.
@@ -25,7 +25,7 @@ Section Sound.
   Lemma step_clean e st st' : In e g -> step_ok bad e st st' -> clean st -> clean st'.
   Proof.
     intros Hin [Hd Ho] Hc x Hx r Hr.
-    destruct (string_dec x (fst e)) as [->|Hne]; [|rewrite (Ho x Hne) in Hr; exact (Hc x Hx r Hr)].
+    destruct (N.eq_dec x (fst e)) as [->|Hne]; [|rewrite (Ho x Hne) in Hr; exact (Hc x Hx r Hr)].
     destruct (Hd r Hr) as [Hn|[Hold|[s [Hs Hev]]]]; [exact Hn|exact (Hc _ Hx r Hold)|].
     unfold closedb in Hclosed. rewrite forallb_forall in Hclosed. specialize (Hclosed e Hin).
     rewrite Hx in Hclosed. rewrite orb_false_r in Hclosed. apply negb_true_iff in Hclosed.
@@ -66,7 +66,7 @@ Qed.
 (* ---- the two uses ---- *)
 Definition is_buffer (r : region) : Prop := r = 0.
 
-Theorem results_avoid_buffer (g : list edge) (t rets : list string) :
+Theorem results_avoid_buffer (g : list edge) (t rets : list node) :
   closedb true g t = true -> forallb (fun x => negb (mem x t)) rets = true ->
   forall st st', (forall x r, In r (st x) -> r <> 0) -> run is_buffer g st st' ->
   forall f, In f rets -> forall r, In r (st' f) -> r <> 0.
@@ -77,7 +77,7 @@ Proof.
   apply (Hc f); [|exact Hr]. rewrite forallb_forall in Hrets. apply negb_true_iff. apply Hrets. exact Hf.
 Qed.
 
-Theorem buffer_mutation_invisible (g : list edge) (t rets : list string) :
+Theorem buffer_mutation_invisible (g : list edge) (t rets : list node) :
   closedb true g t = true -> forallb (fun x => negb (mem x t)) rets = true ->
   forall st st' (h h' : heap), (forall x r, In r (st x) -> r <> 0) -> run is_buffer g st st' ->
   forall f, In f rets -> ptr_closed h (st' f) -> (forall r, r <> 0 -> h' r = h r) ->
@@ -88,7 +88,7 @@ Proof.
   intros r0 Hr0. exact (results_avoid_buffer g t rets Hcl Hrets st st' Hinit Hrun f Hf r0 Hr0).
 Qed.
 
-Theorem sink_avoids_marked (g : list edge) (t : list string) (sink : string) :
+Theorem sink_avoids_marked (g : list edge) (t : list node) (sink : node) :
   closedb false g t = true -> mem sink t = false ->
   forall (msg : region -> Prop) st st',
   ~ msg 0 -> (forall x, mem x t = false -> forall r, In r (st x) -> ~ msg r) -> run msg g st st' ->
@@ -101,11 +101,12 @@ Proof.
 Qed.
 
 (* ---- the meaning is not vacuous: a small library in which one reader copies and one does not ---- *)
-Local Open Scope string_scope.
-Definition toy : list edge := [("copy.b", []); ("copy.ret", [SVar "copy.b"]); ("zero.b", [SBuf]); ("zero.ret", [SVar "zero.b"])].
-Definition upd (st : store) (x : string) (v : list region) : store := fun y => if String.eqb y x then v else st y.
+Local Open Scope N_scope.
+(* nodes: 1 = copy.b, 2 = copy.ret, 3 = zero.b, 4 = zero.ret *)
+Definition toy : list edge := [(1, []); (2, [SVar 1]); (3, [SBuf]); (4, [SVar 3])].
+Definition upd (st : store) (x : node) (v : list region) : store := fun y => if N.eqb y x then v else st y.
 
-Example toy_closed : closedb true toy ["zero.ret"; "zero.b"] = true /\ mem "copy.ret" ["zero.ret"; "zero.b"] = false.
+Example toy_closed : closedb true toy [4; 3] = true /\ mem 2 [4; 3] = false.
 Proof. split; reflexivity. Qed.
 
 Lemma step_upd bad (e : edge) st v :
@@ -113,21 +114,21 @@ Lemma step_upd bad (e : edge) st v :
   step_ok bad e st (upd st (fst e) v).
 Proof.
   intro H. split.
-  - intros r Hr. unfold upd in Hr. rewrite String.eqb_refl in Hr. apply H. exact Hr.
-  - intros x Hx. unfold upd. destruct (String.eqb_spec x (fst e)); [contradiction|reflexivity].
+  - intros r Hr. unfold upd in Hr. rewrite N.eqb_refl in Hr. apply H. exact Hr.
+  - intros x Hx. unfold upd. destruct (N.eqb_spec x (fst e)); [contradiction|reflexivity].
 Qed.
 
 (* the zero-copy reader really does hand out the buffer's memory: the analysis flags exactly what can happen *)
-Example toy_zero_copy_reaches_buffer : exists st', run is_buffer toy (fun _ => []) st' /\ In 0 (st' "zero.ret") /\ st' "copy.ret" = [7].
+Example toy_zero_copy_reaches_buffer : exists st', run is_buffer toy (fun _ => []) st' /\ In 0%nat (st' 4) /\ st' 2 = [7%nat].
 Proof.
-  exists (upd (upd (upd (upd (fun _ => []) "copy.b" [7]) "copy.ret" [7]) "zero.b" [0]) "zero.ret" [0]).
+  exists (upd (upd (upd (upd (fun _ => []) 1 [7%nat]) 2 [7%nat]) 3 [0%nat]) 4 [0%nat]).
   split; [|split; [left; reflexivity|reflexivity]].
-  eapply run_step with (e := ("copy.b", [])); [left; reflexivity|apply (step_upd is_buffer _ _ [7])|].
+  eapply run_step with (e := (1, [])); [left; reflexivity|apply (step_upd is_buffer _ _ [7%nat])|].
   { intros r [<-|[]]. left. unfold is_buffer. discriminate. }
-  eapply run_step with (e := ("copy.ret", [SVar "copy.b"])); [right; left; reflexivity|apply (step_upd is_buffer _ _ [7])|].
-  { intros r Hr. right. right. exists (SVar "copy.b"). split; [left; reflexivity|exact Hr]. }
-  eapply run_step with (e := ("zero.b", [SBuf])); [right; right; left; reflexivity|apply (step_upd is_buffer _ _ [0])|].
+  eapply run_step with (e := (2, [SVar 1])); [right; left; reflexivity|apply (step_upd is_buffer _ _ [7%nat])|].
+  { intros r Hr. right. right. exists (SVar 1). split; [left; reflexivity|exact Hr]. }
+  eapply run_step with (e := (3, [SBuf])); [right; right; left; reflexivity|apply (step_upd is_buffer _ _ [0%nat])|].
   { intros r Hr. right. right. exists SBuf. split; [left; reflexivity|exact Hr]. }
-  eapply run_step with (e := ("zero.ret", [SVar "zero.b"])); [right; right; right; left; reflexivity|apply (step_upd is_buffer _ _ [0])|apply run_nil].
-  intros r Hr. right. right. exists (SVar "zero.b"). split; [left; reflexivity|exact Hr].
+  eapply run_step with (e := (4, [SVar 3])); [right; right; right; left; reflexivity|apply (step_upd is_buffer _ _ [0%nat])|apply run_nil].
+  intros r Hr. right. right. exists (SVar 3). split; [left; reflexivity|exact Hr].
 Qed.
